@@ -35,11 +35,10 @@ import (
 // NodehostAPI implements the grpc server used for making raft IO requests.
 type NodehostAPI struct {
 	pb.UnimplementedNodehostAPIServer
-	nh        *dragonboat.NodeHost
-	stopper   *syncutil.Stopper
-	server    *grpc.Server
-	mu        sync.Mutex
-	supportCS map[uint64]bool
+	nh      *dragonboat.NodeHost
+	stopper *syncutil.Stopper
+	server  *grpc.Server
+	mu      sync.Mutex
 }
 
 func ToNodeHostSession(s *pb.Session) *client.Session {
@@ -88,10 +87,9 @@ func NewNodehostAPI(address string, nh *dragonboat.NodeHost) *NodehostAPI {
 	}
 	server := grpc.NewServer(opts...)
 	m := &NodehostAPI{
-		nh:        nh,
-		stopper:   stopper,
-		server:    server,
-		supportCS: make(map[uint64]bool),
+		nh:      nh,
+		stopper: stopper,
+		server:  server,
 	}
 	pb.RegisterNodehostAPIServer(server, m)
 	stopper.RunWorker(func() {
@@ -113,20 +111,19 @@ func (api *NodehostAPI) Stop() {
 func (api *NodehostAPI) supportRegularSession(shardID uint64) (bool, error) {
 	api.mu.Lock()
 	defer api.mu.Unlock()
-	v, ok := api.supportCS[shardID]
-	if ok {
-		return v, nil
-	}
-	nhi := api.nh.GetNodeHostInfo(dragonboat.DefaultNodeHostInfoOption)
+	// always derived from what the NodeHost runs now, a shard can be stopped
+	// and hosted again with another state machine type at any time
+	opt := dragonboat.NodeHostInfoOption{SkipLogInfo: true}
+	nhi := api.nh.GetNodeHostInfo(opt)
 	if nhi == nil {
 		return false, errors.New("stopped")
 	}
+	v, ok := false, false
 	for _, ci := range nhi.ShardInfoList {
 		if ci.ShardID == shardID {
-			api.supportCS[shardID] = ci.StateMachineType != sm.OnDiskStateMachine
+			v, ok = ci.StateMachineType != sm.OnDiskStateMachine, true
 		}
 	}
-	v, ok = api.supportCS[shardID]
 	if ok {
 		return v, nil
 	}
